@@ -9,6 +9,9 @@ package internals
 //@ pool ZogIssuePool *ZogIssue
 //@ pool InternalIssueListPool *ErrsList
 //@ pool InternalIssueMapPool *ErrsMap
+// Everything zog puts back into the path-builder pool has room for, and starts with, the empty root segment.
+//@ pool PathBuilderPool *PathBuilder inv[C07] path_root: cap(*x) >= 1 && (*x)[0] == ""
+//@ pool StringBuilderPool *strings.Builder
 
 //@ func NewExecCtx(errs, fmter)
 //@   fresh
@@ -55,12 +58,16 @@ package internals
 //@ func NewErrsList()
 //@   fresh
 //@   modifies nothing
+//@   ghost_update L(box(result)) := empty()
 //@   ensures[C07,C02] list_reset: result.List == nil
+//@   ensures[C02] rep: zrep(box(result))
 
 //@ func NewErrsMap()
 //@   fresh
 //@   modifies nothing
+//@   ghost_update L(box(result)) := empty()
 //@   ensures[C07,C02] map_reset: result.M == nil
+//@   ensures[C02] rep: zrep(box(result))
 
 // ---- shared vocabulary
 
@@ -69,10 +76,11 @@ package internals
 // Ghost counter: number of test functions invoked so far in this execution.
 //@ ghost tf_ran Int
 //@ spec LC(c) = L(c.ExecCtx.Errors)
-//@ spec zrep(s) = (istype(s, *ErrsList) ==> ((s.(*ErrsList).List == nil) <==> (L(s) == empty()))) && (istype(s, *ErrsMap) ==> ((s.(*ErrsMap).M == nil) <==> (L(s) == empty())))
+//@ spec listrep(l, g) = ((l == nil) <==> (g == empty())) && len(l) == loglen(g) && (len(l) > 0 ==> l[len(l)-1] == last(g))
+//@ spec zrep(s) = (istype(s, *ErrsList) ==> listrep(s.(*ErrsList).List, L(s))) && (istype(s, *ErrsMap) ==> ((s.(*ErrsMap).M == nil) <==> (L(s) == empty())))
 //@ spec iscontainer(s) = (istype(s, *ErrsList) && s.(*ErrsList) != nil) || (istype(s, *ErrsMap) && s.(*ErrsMap) != nil)
 //@ spec wfexec(x) = x != nil && x.Fmter != nil && iscontainer(x.Errors) && zrep(x.Errors)
-//@ spec wfctx(c) = c != nil && wfexec(c.ExecCtx) && c.Path != nil
+//@ spec wfctx(c) = c != nil && wfexec(c.ExecCtx) && pathwf(c.Path)
 //@ spec clean(c) = !c.CanCatch && !c.Exit
 // Footprint of recording an issue in the execution x: the ghost log, the container's representation and the
 // message of issues (set by formatters).
@@ -84,7 +92,11 @@ package internals
 //@ specfun ppop(PathSeq) PathSeq
 //@ specfun prender(PathSeq) String
 //@ smt (assert (forall ((s PathSeq) (x String)) (! (= (zz_ppop (zz_ppush s x)) s) :pattern ((zz_ppush s x)))))
+//@ specfun pempty() PathSeq
+//@ smt (assert (= (zz_prender zz_pempty) ""))
 //@ ghost PSEQ(Ptr) PathSeq
+// Concrete shape of a path builder between balanced Push/Pop pairs: at least the root segment, which is "".
+//@ spec pathwf(p) = p != nil && len(*p) >= 1 && (*p)[0] == ""
 
 // ---- function-type contracts (assumed for user callbacks, proved for zog's own closures)
 
@@ -247,6 +259,13 @@ package internals
 //@   ensures[C12] wrapped: !istype(err, *ZogIssue) ==> isnew(result) && result.Err == err && result.Path == prender(PSEQ(c.Path)) && result.Code == "" && result.Message == "" && result.Params == nil && result.Dtype == c.DType
 
 // ---- path builder (bodies proved against the ghost sequence in the C10 group)
+
+//@ func NewPathBuilder()
+//@   fresh
+//@   modifies nothing
+//@   ghost_update PSEQ(result) := pempty()
+//@   ensures[C07,C10] root_only: len(*result) == 1 && (*result)[0] == ""
+//@   ensures[C10] PSEQ(result) == pempty()
 
 //@ func (*PathBuilder).String(p)
 //@   trusted
